@@ -147,8 +147,9 @@ func (m *model) detach(cacheIdx, key int, reason string) {
 	}
 	g.detached = true
 	ng := &gen{id: len(m.gens), cache: cacheIdx, key: key, state: "unknown", reason: reason, fetcher: -1, ambClient: -1}
-	if m.sc.Cfg.Store != "" && (g.state == "wild" || g.wasWild) {
-		// what a generation without a model left in the store is unknown: stay permissive
+	if m.sc.Cfg.Store != "" && (g.state == "wild" || g.wasWild || g.state == "amb") {
+		// what a generation without a model left (or, with a pass-or-probe request still in
+		// flight, will leave) in the store is unknown: stay permissive
 		ng.state, ng.wasWild = "wild", true
 	}
 	if reason == "evicted" && m.sc.Cfg.Store == "fault" {
